@@ -1,24 +1,54 @@
-"""THROW-AWAY development driver for C10 (function-level clauses only); the coordinator replaces it."""
+"""C10 - actions sent to the environment respect the action-space bounds."""
 import json
+import os
 
-from . import c10_fn
+from .. import sweep, tlc
 
 LEVEL = "model_checking"
 MANIFEST = dict(
     category="model_checking",
-    text="(development stub - function-level clauses only)",
-    note="",
-    technique="TLA+ spec + TLC; replay of TLC-generated vectors into the samplers / tanh head / CEM",
+    text="Bounds.tla states the samplers as compositions on exact rationals (exploration = Clip(a + sigma*s*n), target smoothing = Clip(a + Clip(sigma*s*n, -c*s, c*s)), tanh scaling at saturation points, CEM proposals with truncated noise and distance-to-bound variance cap); TLC checks that every composition stays inside [low, high] and that the applied smoothing noise is bounded by c*s over a lattice of bound configurations (symmetric, asymmetric, tiny, huge, per-dimension different) and refutes the wrong-order / wrong-range variants; TLC-generated vectors are replayed into sample_actions, sample_target_actions, DeterministicTanhPolicy, cem_sample / cem_update / optimize_cem with the key-determined noise obtained from jax.random with the same key. During recorded training runs of DDPG, TD3, TD3+LAP, TD7, MR.Q and PETS on environments with asymmetric per-dimension bounds, LoopTrace.tla checks every action the environment receives on float32 ordinals (ActionInBounds).",
+    note="tanh values themselves are not evaluated (saturation points and order only); noise equation only on interior points; C10 names DDPG/TD3/TD3+LAP/TD7/MR.Q/PETS - other routines' actions are not judged; trusted: ordinal coding, recording environment, TLC",
+    technique="TLA+ spec + TLC on a dyadic lattice replayed into the real samplers; trace validation of recorded training runs on float32 ordinals",
 )
+C10_ROUTINES = ("ddpg", "td3", "td3_lap", "td7", "td7_ckpt", "mrq", "pets")
+
+
+def _fn_enabled():
+    return "c10_fn" in open(os.path.join(os.path.dirname(__file__), "..", "..", "tools", "parts_enabled.txt")).read().split()
 
 
 def run(rep):
-    c10_fn.run_fn(rep)
+    for m in ("LoopClauses", "LoopTrace"):
+        tlc.sany(m)
+    traces, out = sweep.report_property(rep, "C10")
+    mine = [t for t in traces if t["cfg"]["routine"] in C10_ROUTINES]
+    n = sum(1 for t in mine for e in t["events"] if e["ev"] == "step")
+    pol = sum(1 for t in mine for i, e in enumerate(t["events"]) if e["ev"] == "step" and i and t["events"][i - 1]["ev"] == "policy")
+    if not mine or pol == 0:
+        raise tlc.MachineryError("no recorded continuous-control run with policy-chosen actions (vacuous)")
+    sweep.binding_canary_bounds(mine)
+    rep.extra["trace_part"] = {"routines": sorted({t["cfg"]["routine"] for t in mine}), "actions_checked": n, "policy_chosen_actions": pol}
+    if _fn_enabled():
+        from . import c10_fn
+
+        c10_fn.run_fn(rep)
+    else:
+        rep.evaluations = n
+        rep.distinct = pol
+        rep.rule = "one case = one action received by the recording environment in a recorded run; non-trivial = actions computed by the policy / planner (not warm-up samples)"
+        rep.sample({"trace": mine[0]["id"], "step_event": next(e for e in mine[0]["events"] if e["ev"] == "step")})
+        rep.assumptions.append("function-level part (Bounds.tla) not enabled in this build")
 
 
 def replay(path, rep):
-    d = json.load(open(path))
-    rc = c10_fn.replay_fn(d["replay"], rep)
+    d = json.load(open(path))["replay"]
+    if isinstance(d, dict) and d.get("kind") == "sweep":
+        rc = sweep.replay_one(d, "C10")
+    else:
+        from . import c10_fn
+
+        rc = c10_fn.replay_fn(d, rep)
     if rc:
-        print("VIOLATION property=C10 replay=" + path)
+        print(f"VIOLATION property=C10 replay={path}")
     return rc
